@@ -146,6 +146,7 @@ func C04(c *Ctx) {
 	}
 	r.Analysed["template_parameters"] = refl
 	c04Pipeline(c, g)
+	c04Flags(c, g)
 }
 
 // c04FuncName decides injectivity of funcName from the shape of its returned concatenation.
@@ -733,4 +734,106 @@ func c04Vet(c *Ctx, list []builtVariant) {
 		x := <-ch
 		r.Check(x.err == nil, "C04-a", "go vet(skeleton+variant) "+x.name, "", "builder/static_code.go", "go vet clean", "go vet: "+strings.TrimSpace(x.out))
 	}
+}
+
+// c04Flags: command-line flags are wired to the builder option of the same meaning, every option value reaches
+// BuildParser, and each option function stores into its own builder field.
+func c04Flags(c *Ctx, g *load.G) {
+	r := c.R
+	r.Rule("C04-f", "main: -optimize-parser→builder.Optimize, -optimize-basic-latin→builder.BasicLatinLookupTable, -nolint→builder.Nolint, -support-left-recursion→builder.SupportLeftRecursion, -receiver-name→builder.ReceiverName; all five option values are arguments of builder.BuildParser; each builder option assigns its own field")
+	mf := load.FuncDecl(g.Pkg(""), "", "main")
+	if mf == nil {
+		r.Fatal("main.main not found")
+		return
+	}
+	flagVar := map[string]string{} // variable -> flag name
+	ast.Inspect(mf.Body, func(n ast.Node) bool {
+		vs, ok := n.(*ast.ValueSpec)
+		if !ok {
+			return true
+		}
+		for i, nm := range vs.Names {
+			if i >= len(vs.Values) {
+				continue
+			}
+			if ce, ok := vs.Values[i].(*ast.CallExpr); ok && strings.HasPrefix(callName(ce), "fs.") && len(ce.Args) >= 1 {
+				if bl, ok := ce.Args[0].(*ast.BasicLit); ok {
+					if v, err := strconv.Unquote(bl.Value); err == nil {
+						flagVar[nm.Name] = v
+					}
+				}
+			}
+		}
+		return true
+	})
+	want := map[string]string{"optimize-parser": "builder.Optimize", "optimize-basic-latin": "builder.BasicLatinLookupTable", "nolint": "builder.Nolint", "support-left-recursion": "builder.SupportLeftRecursion", "receiver-name": "builder.ReceiverName"}
+	got := map[string]string{}
+	optVar := map[string]string{} // local option variable -> flag
+	ast.Inspect(mf.Body, func(n ast.Node) bool {
+		as, ok := n.(*ast.AssignStmt)
+		if !ok || len(as.Rhs) != 1 {
+			return true
+		}
+		ce, ok := as.Rhs[0].(*ast.CallExpr)
+		if !ok || !strings.HasPrefix(callName(ce), "builder.") || len(ce.Args) != 1 {
+			return true
+		}
+		arg := strings.TrimPrefix(nospace(ce.Args[0]), "*")
+		if f, ok := flagVar[arg]; ok {
+			got[f] = callName(ce)
+			optVar[nospace(as.Lhs[0])] = f
+		}
+		return true
+	})
+	var bad []string
+	for f, opt := range want {
+		if got[f] != opt {
+			bad = append(bad, fmt.Sprintf("-%s is wired to %q, expected %s", f, got[f], opt))
+		}
+	}
+	passed := map[string]bool{}
+	for _, ce := range callsIn(mf.Body) {
+		if callName(ce) == "builder.BuildParser" {
+			for _, a := range ce.Args {
+				if f, ok := optVar[nospace(a)]; ok {
+					passed[f] = true
+				}
+			}
+		}
+	}
+	for f := range want {
+		if !passed[f] {
+			bad = append(bad, "-"+f+" does not reach builder.BuildParser")
+		}
+	}
+	sort.Strings(bad)
+	r.Check(len(bad) == 0, "C04-f", "G.main:generation-flags-wired", "", "main.go", fmt.Sprintf("%v", got), strings.Join(bad, "; "))
+	// option functions
+	bp := g.Pkg("builder")
+	optField := map[string]string{"Optimize": "optimize", "BasicLatinLookupTable": "basicLatinLookupTable", "Nolint": "nolint", "SupportLeftRecursion": "supportLeftRecursion", "ReceiverName": "recvName"}
+	var bad2 []string
+	for opt, field := range optField {
+		fd := load.FuncDecl(bp, "", opt)
+		if fd == nil {
+			bad2 = append(bad2, "option "+opt+" not found")
+			continue
+		}
+		param := fd.Type.Params.List[0].Names[0].Name
+		ok := false
+		n := 0
+		ast.Inspect(fd.Body, func(nd ast.Node) bool {
+			if as, isAs := nd.(*ast.AssignStmt); isAs && strings.HasPrefix(nospace(as.Lhs[0]), "b.") && as.Tok.String() == "=" {
+				n++
+				if nospace(as.Lhs[0]) == "b."+field && nospace(as.Rhs[0]) == param {
+					ok = true
+				}
+			}
+			return true
+		})
+		if !ok || n != 1 {
+			bad2 = append(bad2, fmt.Sprintf("builder.%s does not assign exactly b.%s = %s", opt, field, param))
+		}
+	}
+	sort.Strings(bad2)
+	r.Check(len(bad2) == 0, "C04-f", "G.builder:options-store-their-own-field", "", "builder/builder.go", "five options, each storing its argument into its field", strings.Join(bad2, "; "))
 }
